@@ -43,7 +43,8 @@ def main():
             c.broken.append("harness produced no c11 cases")
     seen = set()
     for f in fails:
-        what = "case=%s native=%s outer=%s: %s" % (re.sub(r"\d+", "N", f["case"]), (f["native"] or "?").split(":")[0],
+        mode = "multi" if "-multi" in f["subject"] else "ctlsum" if f["subject"].startswith("ctlsum") else "plain"
+        what = "mode=%s case=%s native=%s outer=%s: %s" % (mode, re.sub(r"\d+", "N", f["case"]), (f["native"] or "?").split(":")[0],
                                                      (f["outer"] or "?").split(":")[0], re.sub(r"\s*\(.*\)", "", f["why"]).strip())
         if what in seen:
             continue
